@@ -36,8 +36,8 @@ package helper
 
 //@ func GetDeleteSlots
 //@   requires set != nil
-//@   ensures [C01,C02,C03,C04,C05,C07,C12,C14,C19] freshslots: fresh(deleteSlots)
-//@   ensures [C01,C02,C03,C04,C05,C07,C12,C14,C19] decoded: forall x int32 :: {deleteSlots.has(x)} deleteSlots.has(x) <==> slotsAnn(set)[x]
+//@   ensures [C01,C02,C03,C04,C05,C07,C14,C19] freshslots: fresh(deleteSlots)
+//@   ensures [C01,C02,C03,C04,C05,C07,C14,C19] decoded: forall x int32 :: {deleteSlots.has(x)} deleteSlots.has(x) <==> slotsAnn(set)[x]
 
 //@ extern encoding/json:Unmarshal@GetDeleteSlots
 //@   params data, v
@@ -56,28 +56,28 @@ package helper
 //@   results bound, eff
 //@   requires replicas >= 0
 //@   requires replicas + card(deleteSlots) <= MaxInt32
-//@   ensures [C01,C02,C03,C04,C05,C07,C12,C14] effsub: forall x int32 :: {eff.has(x)} eff.has(x) ==> old(deleteSlots.has(x)) && 0 <= x && x < bound
-//@   ensures [C01,C02,C03,C04,C05,C07,C12,C14] effall: forall x int32 :: {old(deleteSlots.has(x))} old(deleteSlots.has(x)) && 0 <= x && x < bound ==> eff.has(x)
-//@   ensures [C01,C02,C03,C04,C05,C07,C12,C14] boundcard: bound == replicas + card(eff)
+//@   ensures [C01,C02,C03,C04,C05,C07,C14] effsub: forall x int32 :: {eff.has(x)} eff.has(x) ==> old(deleteSlots.has(x)) && 0 <= x && x < bound
+//@   ensures [C01,C02,C03,C04,C05,C07,C14] effall: forall x int32 :: {old(deleteSlots.has(x))} old(deleteSlots.has(x)) && 0 <= x && x < bound ==> eff.has(x)
+//@   ensures [C01,C02,C03,C04,C05,C07,C14] boundcard: bound == replicas + card(eff)
 //@   ensures boundle: bound <= replicas + card(old(dom(deleteSlots)))
-//@   ensures [C01,C02,C03,C04,C05,C07,C12,C14] range: forall x int32 :: {eff.has(x)} {count(old(dom(deleteSlots)), 0, x)} desired(replicas, old(dom(deleteSlots)), x) <==> (0 <= x && x < bound && !eff.has(x))
+//@   ensures [C01,C02,C03,C04,C05,C07,C14] range: forall x int32 :: {eff.has(x)} {count(old(dom(deleteSlots)), 0, x)} desired(replicas, old(dom(deleteSlots)), x) <==> (0 <= x && x < bound && !eff.has(x))
 //@   ensures fresheff: fresh(eff)
 //@   at exit: assert bridge: forall x int32 :: {eff.has(x)} {count(old(dom(deleteSlots)), 0, x)} desiredT(old(dom(deleteSlots)), dom(eff), bound, x)
 //@   ghost var C0 set[int]
 //@   loop 1 "range deleteSlots" visited V
 //@     invariant fresh(deleteSlotsCopy) && deleteSlotsCopy != deleteSlots
-//@     invariant forall x int32 :: {deleteSlotsCopy.has(x)} deleteSlotsCopy.has(x) <==> V[x]
+//@     invariant [C01,C02,C03,C04,C05,C07,C14] copied: forall x int32 :: {deleteSlotsCopy.has(x)} deleteSlotsCopy.has(x) <==> V[x]
 //@   at loopstart 2: ghost C0 = dom(deleteSlotsCopy)
 //@   loop 2 "range deleteSlotsCopy.List()" index k list L
 //@     invariant fresh(deleteSlotsCopy) && deleteSlotsCopy != deleteSlots
 //@     invariant replicas <= replicaCount && replicaCount - replicas <= k
-//@     invariant kept: forall j int :: {L[j]} 0 <= j && j < k && deleteSlotsCopy.has(L[j]) ==> 0 <= L[j] && L[j] < replicaCount
-//@     invariant dropped: forall j int :: {L[j]} 0 <= j && j < k && !deleteSlotsCopy.has(L[j]) ==> L[j] < 0 || L[j] >= replicaCount
-//@     invariant rest: forall j int :: {L[j]} k <= j && j < len(L) ==> deleteSlotsCopy.has(L[j])
-//@     invariant sub: forall x int32 :: {deleteSlotsCopy.has(x)} deleteSlotsCopy.has(x) ==> C0[x]
-//@     invariant c0: forall x int32 :: {C0[x]} C0[x] <==> old(deleteSlots.has(x))
-//@     invariant cardinv: card(deleteSlotsCopy) == len(L) - k + (replicaCount - replicas)
-//@     invariant lenl: len(L) == card(C0)
+//@     invariant [C01,C02,C03,C04,C05,C07,C14] kept: forall j int :: {L[j]} 0 <= j && j < k && deleteSlotsCopy.has(L[j]) ==> 0 <= L[j] && L[j] < replicaCount
+//@     invariant [C01,C02,C03,C04,C05,C07,C14] dropped: forall j int :: {L[j]} 0 <= j && j < k && !deleteSlotsCopy.has(L[j]) ==> L[j] < 0 || L[j] >= replicaCount
+//@     invariant [C01,C02,C03,C04,C05,C07,C14] rest: forall j int :: {L[j]} k <= j && j < len(L) ==> deleteSlotsCopy.has(L[j])
+//@     invariant [C01,C02,C03,C04,C05,C07,C14] sub: forall x int32 :: {deleteSlotsCopy.has(x)} deleteSlotsCopy.has(x) ==> C0[x]
+//@     invariant [C01,C02,C03,C04,C05,C07,C14] c0: forall x int32 :: {C0[x]} C0[x] <==> old(deleteSlots.has(x))
+//@     invariant [C01,C02,C03,C04,C05,C07,C14] cardinv: card(deleteSlotsCopy) == len(L) - k + (replicaCount - replicas)
+//@     invariant [C01,C02,C03,C04,C05,C07,C14] lenl: len(L) == card(C0)
 
 //@ func GetPodOrdinalsFromReplicasAndDeleteSlots
 //@   lemmas count_bound, count_store, count_empty, card_range, desired_bridge
